@@ -3,7 +3,7 @@
    the model of the code (two tables, updatePath/register/removePath) is proved to refine it on every history. *)
 From stdpp Require Import gmap strings list.
 From Fsn Require Import PathLex Bytes Tables Doc Watcher System Spec SpecDefs Refine SpecInv SpecWatchSet Transfer.
-From Fsn Require PathLexProofs.
+From Fsn Require PathLexProofs PathLexMore.
 Local Open Scope N_scope.
 
 (* the code's model does, call by call, what the specification does: same results (WatchList up to order), same state *)
@@ -72,6 +72,24 @@ Theorem C04_remove_listed : forall k A p wd, find_path A p = Some wd ->
      (marks k !! wd = None /\ r = RErr (ErrNo EINVAL) /\ k' = k)).
 Proof. exact remove_listed. Qed.
 
+(* Remove depends on its argument only through Clean — in the specification and in the model of the code — so every
+   redundant spelling of a listed path removes it (and of an unlisted one fails) exactly as the plain spelling does *)
+Theorem C04_remove_by_cleaned_spelling : forall (cfg : config) (ss : spec) (s : sys) a b, clean a = clean b ->
+  (spec_step ss (SRemove a) = spec_step ss (SRemove b)) /\ (sys_step cfg s (SRemove a) = sys_step cfg s (SRemove b)).
+Proof. intros cfg ss s a b E. split; cbn [spec_step sys_step]; rewrite E; reflexivity. Qed.
+Theorem C04_remove_spellings : forall (cfg : config) (s : sys) (a b : string), (a ++ "/" ++ b)%string <> ""%string ->
+  (sys_step cfg s (SRemove (a ++ "//" ++ b)%string) = sys_step cfg s (SRemove (a ++ "/" ++ b)%string)) /\
+  (sys_step cfg s (SRemove (a ++ "/./" ++ b)%string) = sys_step cfg s (SRemove (a ++ "/" ++ b)%string)) /\
+  (sys_step cfg s (SRemove ((a ++ "/" ++ b) ++ "/")%string) = sys_step cfg s (SRemove (a ++ "/" ++ b)%string)) /\
+  (sys_step cfg s (SRemove ((a ++ "/" ++ b) ++ "/.")%string) = sys_step cfg s (SRemove (a ++ "/" ++ b)%string)).
+Proof.
+  intros cfg s a b Hne. repeat split; cbn [sys_step].
+  - rewrite PathLexMore.clean_double_slash. reflexivity.
+  - rewrite PathLexMore.clean_dot_component. reflexivity.
+  - rewrite PathLexProofs.clean_trailing_slash by exact Hne. reflexivity.
+  - rewrite PathLexMore.clean_trailing_dot by exact Hne. reflexivity.
+Qed.
+
 (* Add and Remove normalise their argument with the same idempotent Clean *)
 Theorem C04_clean_idempotent : forall p, clean (clean p) = clean p.
 Proof. exact PathLexProofs.clean_idem. Qed.
@@ -101,3 +119,5 @@ Print Assumptions C04_remove_nonexistent_only_if_unlisted.
 Print Assumptions C04_remove_never_panics.
 Print Assumptions C04_remove_listed.
 Print Assumptions C04_clean_idempotent.
+Print Assumptions C04_remove_by_cleaned_spelling.
+Print Assumptions C04_remove_spellings.
